@@ -20,6 +20,15 @@ use serde_json::{Value, json};
 
 use crate::common::{Counter, Ctx, Report, Rng, TempDir, Violation, catch, fnv, normalize_msg};
 
+/// CLOCK_MONOTONIC in nanoseconds: one clock for all processes of the machine.
+fn mono_ns() -> u64 {
+    let mut ts = libc::timespec { tv_sec: 0, tv_nsec: 0 };
+    unsafe { libc::clock_gettime(libc::CLOCK_MONOTONIC, &mut ts) };
+    ts.tv_sec as u64 * 1_000_000_000 + ts.tv_nsec as u64
+}
+static TASK_END: AtomicU64 = AtomicU64::new(0);
+static DROP_DONE: AtomicU64 = AtomicU64::new(0);
+
 enum Holder {
     Db(Database),
     Reader(Reader),
@@ -118,6 +127,42 @@ impl Participant {
                     });
                     Ok("OK".into())
                 }
+                ["BGHOLD", from, ms] => {
+                    // a background task that is busy for `ms` (not a bg_sleep, which the holder's
+                    // drop wakes up) and records when it ended; it does not touch the database
+                    let db = self.db(from).ok_or("no such db")?;
+                    let ms: u64 = ms.parse().unwrap_or(10);
+                    db.run_bg(move |_| {
+                        std::thread::sleep(Duration::from_millis(ms));
+                        TASK_END.store(mono_ns(), Ordering::SeqCst);
+                        Ok(())
+                    });
+                    Ok("OK".into())
+                }
+                ["TASKEND"] => Ok(format!("OK {}", TASK_END.load(Ordering::SeqCst))),
+                ["DROPASYNC", id] => {
+                    // the drop (which joins background tasks) runs on a helper thread
+                    match self.holders.remove(*id) {
+                        Some(Holder::Db(d)) => {
+                            std::thread::spawn(move || {
+                                drop(d);
+                                DROP_DONE.store(mono_ns(), Ordering::SeqCst);
+                            });
+                            Ok("OK".into())
+                        }
+                        _ => Err("no such db".into()),
+                    }
+                }
+                ["DROPDONE"] => Ok(format!("OK {}", DROP_DONE.load(Ordering::SeqCst))),
+                ["OPENAT", id, dir] => match Database::open(Path::new(dir)) {
+                    Ok(db) => {
+                        let t = mono_ns();
+                        self.holders.insert(id.to_string(), Holder::Db(db));
+                        Ok(format!("OK {t}"))
+                    }
+                    Err(rawdb::Error::TryLock(_)) => Ok("ERR lock".into()),
+                    Err(e) => Ok(format!("ERR other:{}", normalize_msg(&e.to_string()))),
+                },
                 ["WRITE", from, name, n, seed] => {
                     let db = self.db(from).ok_or("no such db")?;
                     let region = db.get_region(name).ok_or("no such region")?;
@@ -425,6 +470,90 @@ fn run_history(rng: &mut Rng, n_remote: usize, steps: usize) -> HistOutcome {
 
 /// N threads (and a child process) open the same directory at once: a shared counter is raised
 /// right after a successful open and lowered right before the drop, so observing 2 proves overlap.
+/// "Background tasks extend the holder's lifetime": participant A starts background tasks (one
+/// of them busy for `hold_ms`), then drops its only handle on a helper thread; participant B
+/// keeps trying to open. B's first successful open must not be earlier than the end of A's busy
+/// task (both instants are read from CLOCK_MONOTONIC inside the respective process), and until
+/// then every attempt must fail with a lock error. The verdict compares two recorded instants
+/// that are at least the rest of the task's busy time apart when the property is broken; machine
+/// load can only delay B, never make it early.
+fn bg_extends_lifetime(variant: usize, hold_ms: u64, stats: &mut Counter) -> Result<Vec<String>, (String, String)> {
+    let tmp = TempDir::new("procbg");
+    let dir = tmp.path().join("db").to_string_lossy().to_string();
+    let mut log = vec![];
+    let mut a = Remote::spawn().map_err(|e| ("inconclusive|child".to_string(), format!("cannot spawn child: {e}")))?;
+    let mut b = Remote::spawn().map_err(|e| ("inconclusive|child".to_string(), format!("cannot spawn child: {e}")))?;
+    let mut say = |who: &str, r: &mut Remote, cmd: String, log: &mut Vec<String>| -> Result<String, (String, String)> {
+        let reply = r.exec(&cmd);
+        log.push(format!("{who} {} -> {reply}", cmd.replace(&dir, "<dir>")));
+        if reply == "TIMEOUT" || reply == "DEAD" || reply.starts_with("FAIL") || reply.starts_with("PANIC") {
+            return Err(("inconclusive|child".into(), format!("participant {who} answered '{reply}' to '{}'", cmd.replace(&dir, "<dir>"))));
+        }
+        Ok(reply)
+    };
+    say("A", &mut a, format!("OPEN h1 {dir} 0"), &mut log)?;
+    say("A", &mut a, "INIT h1".into(), &mut log)?;
+    say("A", &mut a, "WRITE h1 r0 3000 5".into(), &mut log)?;
+    say("A", &mut a, "FLUSH h1".into(), &mut log)?;
+    // the order and number of run_bg calls around the busy task
+    match variant % 4 {
+        0 => {
+            say("A", &mut a, format!("BGHOLD h1 {hold_ms}"), &mut log)?;
+        }
+        1 => {
+            say("A", &mut a, format!("BGHOLD h1 {hold_ms}"), &mut log)?;
+            say("A", &mut a, "BG h1 5".into(), &mut log)?;
+        }
+        2 => {
+            say("A", &mut a, "BG h1 5".into(), &mut log)?;
+            say("A", &mut a, format!("BGHOLD h1 {hold_ms}"), &mut log)?;
+            say("A", &mut a, "BG h1 3".into(), &mut log)?;
+        }
+        _ => {
+            say("A", &mut a, format!("BGHOLD h1 {hold_ms}"), &mut log)?;
+            say("A", &mut a, "BG h1 5".into(), &mut log)?;
+            say("A", &mut a, "BG h1 5".into(), &mut log)?;
+        }
+    }
+    say("A", &mut a, "DROPASYNC h1".into(), &mut log)?;
+    let give_up = std::time::Instant::now() + Duration::from_millis(hold_ms + 20_000);
+    let mut refused = 0u64;
+    let t_open: u64 = loop {
+        let r = say("B", &mut b, format!("OPENAT h2 {dir}"), &mut log)?;
+        if let Some(t) = r.strip_prefix("OK ") {
+            break t.trim().parse().unwrap_or(0);
+        }
+        if r != "ERR lock" {
+            return Err((format!("refused-open-not-a-lock-error|{}", r.split(':').next().unwrap_or("")), format!("while the previous holder was going away an open returned '{r}'")));
+        }
+        refused += 1;
+        if std::time::Instant::now() > give_up {
+            return Err(("inconclusive|lock-never-released".into(), "the directory was not released within 20 s after the busy task must have ended".into()));
+        }
+        std::thread::sleep(Duration::from_millis(15));
+    };
+    stats.add("bg_lifetime:refused_opens_while_task_ran", refused);
+    stats.bump("bg_lifetime:scenarios");
+    // the busy task's end (wait for it: with the property broken it may still be running)
+    let t_end: u64 = loop {
+        let r = say("A", &mut a, "TASKEND".into(), &mut log)?;
+        let t: u64 = r.strip_prefix("OK ").and_then(|x| x.trim().parse().ok()).unwrap_or(0);
+        if t != 0 {
+            break t;
+        }
+        if std::time::Instant::now() > give_up {
+            return Err(("inconclusive|task-never-ended".into(), "the busy background task did not report its end".into()));
+        }
+        std::thread::sleep(Duration::from_millis(20));
+    };
+    if t_open < t_end {
+        return Err(("opened-while-background-task-of-previous-holder-ran".into(), format!("a second process opened the directory {} ms before a background task started by the previous holder (run_bg variant {}) had ended: the last handle's drop did not wait for it", (t_end - t_open) / 1_000_000, variant % 4)));
+    }
+    say("B", &mut b, "DIGEST h2".into(), &mut log)?;
+    say("B", &mut b, "DROP h2".into(), &mut log)?;
+    Ok(log)
+}
+
 fn racing_opens(rng: &mut Rng, rounds: usize, stats: &mut Counter) -> Option<(String, String)> {
     let tmp = TempDir::new("race");
     let dir = tmp.path().join("db");
@@ -512,6 +641,23 @@ pub fn check_c18(ctx: &Ctx) -> i32 {
                 break;
             }
             report.violation(ctx, Violation { sig: format!("C18|{sig}"), what, detail: json!({"processes": n_remote + 1, "history": o.log}) });
+        }
+    }
+    // background tasks extend the holder's lifetime (directed, all run_bg orders)
+    for variant in 0..ctx.pick(4, 12) {
+        if report.violation_count() > 0 {
+            break;
+        }
+        match bg_extends_lifetime(variant, 700 + 150 * (variant as u64 % 3), &mut stats) {
+            Ok(log) => {
+                if samples.len() < 3 {
+                    samples.push(json!({"scenario": "background task extends the holder's lifetime", "commands": log.iter().take(14).collect::<Vec<_>>()}));
+                }
+            }
+            Err((sig, what)) if sig.starts_with("inconclusive|") => report.inconclusive(what),
+            Err((sig, what)) => {
+                report.violation(ctx, Violation { sig: format!("C18|{sig}"), what, detail: json!({"scenario": "bg_extends_lifetime", "variant": variant}) });
+            }
         }
     }
     let mut rng = Rng::derive(ctx.seed, &[1818]);
